@@ -1264,9 +1264,9 @@ def targeted():
 def gen_cases(ctx):
     rng = ctx.rng
     cases = []
-    for _ in range(ctx.n(1250, 7500)):
+    for _ in range(ctx.n(850, 8000)):
         cases.append(gen_server_case(rng))
-    for _ in range(ctx.n(220, 1200)):
+    for _ in range(ctx.n(150, 1300)):
         cases.append(gen_client_case(rng))
     return cases
 
